@@ -31,6 +31,10 @@ CHECKS = {
   technique="deterministic simulation with fault injection on stored text: single-character corruption (insert/replace, boundary and random code points; thorough tier enumerates all 1,114,112 code points) at seeded positions of every syntactic position class; oracle = specification range table + LexerError position arithmetic + locality from the position map",
   text="Seeded search over (label, position class, position, code point, insert/replace); a code point outside the dialect's specification table before the END statement must give LexerError with e.doc == text and pos/lineno/colno consistent and local; the default loader must return the character unchanged inside strings. The thorough tier injects every code point at least once per strict grammar (fault alphabet enumerated; positions sampled). Run 0 compares char_allowed with the table for all code points x 4 grammars.",
   note="Trusted: the tables quoted in the property text; the locality bound start-of-token <= e.pos <= p+1."),
+"C09": dict(engine="E2-io", design="5 (C09)",
+  technique="deterministic simulation of the I/O boundary with fault injection: one stored object (label + separator + trailing bytes) loaded through all seven entry points in seeded order over SimRaw streams under the real BufferedReader/TextIOWrapper (seeded buffer/chunk sizes, short reads, non-seekable, pre-advanced, OSError at byte k) and real scratch files; counting SimLexer on the lexer_fn seam; dumps to paths and to SimRawW streams with short writes and ENOSPC",
+  text="Seeded search over (label, separator, trailing bytes, entry point order, stream knobs and faults); every entry point must return the module of pvl.loads(label) (or raise the same exception type), request no token after END (counted on the token channel), stay within a step budget computed from the label length, and let an injected OSError propagate; dump must write exactly dumps() and report its length or surface the write error. Exploration (~45k loads+dumps per quick run).",
+  note="Trusted: pvl.loads(label) on a fresh parser as the reference for the other entry points; CPython's io layer; assumptions about newline translation listed in the evidence. One open known finding (non-seekable text stream with undecodable tail)."),
 "C10": dict(engine="E3-history", design="5 (C10), 3.3",
   technique="deterministic simulation: seeded operation histories with failing operations, stepped against a list-of-pairs reference model after every step; ddmin-shrunk explicit replay files",
   text="Seeded search over operation histories (60k quick / 2M thorough histories of up to 40 operations incl. failing calls) on all four container classes; every accessor of every live container is compared with an independent list-of-pairs model after every operation. Evidence, not proof: a clean batch covers the histories it ran.",
